@@ -712,34 +712,64 @@ def tags(ctx, facts, rule="TAG"):
     top = facts.bodies.get(base + "compute_and_hash_tags")
     c0 = facts.bodies.get(base + "compute_and_hash_tags::{closure#0}")
     c1 = facts.bodies.get(base + "compute_and_hash_tags::{closure#1}")
-    step = facts.bodies.get(base + "compute_and_hash_tags::{closure#1}::{closure#0}")
-    if None in (top, c0, c1, step):
-        ctx.missing(rule, "compute_and_hash_tags and its three closures")
+    if None in (top, c0, c1):
+        ctx.missing(rule, "compute_and_hash_tags and its closures")
     else:
-        ctx.count(bodies=4)
-        # step closure as a polynomial
+        ctx.count(bodies=3)
+        # the per-row value, whatever way the sum is written (fold with the product inside, or map to the product and
+        # then fold): composed symbolically for two (entry, key) items starting from the fold's initial value, it must be
+        # entry1*key1 + entry2*key2
+        old_cd = flow.CLOSURE_DEFS
+        flow.CLOSURE_DEFS = True
+        okp, why, okf = False, "no fold over the zipped (entry, key) pairs found", False
+        step = c1
         try:
-            def leaf(e):
-                if e == ("arg", 2):
-                    return Poly.var("acc")
-                if e[:3] == ("arg", 3, 0) or e[:3] == ("arg", 3, "0"):
-                    return Poly.var("entry")
-                if e[:3] == ("arg", 3, 1) or e[:3] == ("arg", 3, "1"):
-                    return Poly.var("key")
-                return None
-            p = ev(flow.expr_of(step, {"cp": [0]}, max_depth=12), leaf)
-            okp = p == Poly.var("acc") + Poly.var("entry") * Poly.var("key")
-            why = "acc + entry * key" if okp else f"the fold step is {dict(p)}, not acc + entry*key"
+            fc = flow.find_calls(c1, re.compile(r"Iterator::fold$"))
+            if len(fc) == 1:
+                a = [flow.expr_of(c1, x, max_depth=12) for x in fc[0][1]["args"]]
+                it = flow.strip_casts(a[0])
+                mapb = None
+                if it[0] == "call" and it[1].endswith("Iterator::map"):
+                    mc = it[2][1]
+                    mapb = facts.bodies.get(mc[1][1]) if mc[0] == "agg" and isinstance(mc[1], tuple) else None
+                    it = flow.strip_casts(it[2][0])
+                zipped = it[0] == "call" and it[1].endswith("Iterator::zip") and it[2][0] == ("arg", 2) and it[2][1][0] == "upvar"
+                okf = zipped and a[1][0] == "const" and str(a[1][1]).endswith("::ZERO")
+                sc = a[2]
+                stepb = facts.bodies.get(sc[1][1]) if sc[0] == "agg" and isinstance(sc[1], tuple) else None
+                if stepb is not None:
+                    step = stepb
+                    def apply(acc, ent, key):
+                        if mapb is not None:
+                            def mleaf(e):
+                                if e[:3] in (("arg", 2, 0), ("arg", 2, "0")):
+                                    return ent
+                                if e[:3] in (("arg", 2, 1), ("arg", 2, "1")):
+                                    return key
+                                return None
+                            x = ev(flow.expr_of(mapb, {"cp": [0]}, max_depth=12), mleaf)
+                        def sleaf(e):
+                            if e == ("arg", 2):
+                                return acc
+                            if mapb is not None:
+                                return x if e == ("arg", 3) else None
+                            if e[:3] in (("arg", 3, 0), ("arg", 3, "0")):
+                                return ent
+                            if e[:3] in (("arg", 3, 1), ("arg", 3, "1")):
+                                return key
+                            return None
+                        return ev(flow.expr_of(stepb, {"cp": [0]}, max_depth=12), sleaf)
+                    acc0 = Poly.var("acc0")
+                    got = apply(apply(acc0, Poly.var("e1"), Poly.var("k1")), Poly.var("e2"), Poly.var("k2"))
+                    want = acc0 + Poly.var("e1") * Poly.var("k1") + Poly.var("e2") * Poly.var("k2")
+                    okp = got == want
+                    why = "per-row value = initial + sum of entry * key" if okp else f"two fold steps give {dict(got)}, not acc + e1*k1 + e2*k2"
         except EvUnknown as ex:
             okp, why = False, f"cannot read the fold step ({ex})"
+        finally:
+            flow.CLOSURE_DEFS = old_cd
         ctx.ob(rule, "hash:fold-step", okp, why, site_of(step))
-        fc = flow.find_calls(c1, re.compile(r"Iterator::fold$"))
-        okf = False
-        if len(fc) == 1:
-            a = [flow.expr_of(c1, x, max_depth=10) for x in fc[0][1]["args"]]
-            zipped = a[0][0] == "call" and a[0][1].endswith("Iterator::zip") and a[0][2][0] == ("arg", 2) and a[0][2][1][0] == "upvar"
-            okf = zipped and a[1][0] == "const" and str(a[1][1]).endswith("::ZERO")
-        ctx.ob(rule, "hash:fold-from-zero-over-zip(entries, keys)", okf, "fold(ZERO, ..) over zip(row entries, keys)" if okf else "the per-row value is not fold(ZERO, ..) over zip(row entries, keys): a constant offset or a missing key makes honest tables disagree / hides a change", site_of(c1, fc[0][0]) if fc else site_of(c1))
+        ctx.ob(rule, "hash:fold-from-zero-over-zip(entries, keys)", okf, "fold(ZERO, ..) over zip(row entries, keys)" if okf else "the per-row value is not fold(ZERO, ..) over zip(row entries, keys): a constant offset or a missing key makes honest tables disagree / hides a change", site_of(c1, fc[0][0]) if len(fc) == 1 else site_of(c1))
         ch = flow.find_calls(c0, re.compile(r"Iterator::chain$"))
         okc = False
         if len(ch) == 1:
